@@ -37,11 +37,20 @@ fn lock_options(dir: &Path) -> Options {
     o
 }
 
+/// the three ways to obtain a handle
+fn open_mode(dir: &Path, mode: &str) -> parity_db::Result<Db> {
+    match mode {
+        "write" => Db::open(&lock_options(dir)),
+        "ro" => Db::open_read_only(&lock_options(dir)),
+        _ => Db::open_or_create(&lock_options(dir)),
+    }
+}
+
 /// child process of the lock replay: open, report, obey commands on stdin
 pub fn cmd_lock_child(args: &HashMap<String, String>) -> i32 {
     let dir = PathBuf::from(&args["dir"]);
     let out = std::io::stdout();
-    let db = match Db::open_or_create(&lock_options(&dir)) {
+    let db = match open_mode(&dir, args.get("mode").map(|s| s.as_str()).unwrap_or("create")) {
         Ok(db) => {
             println!("OK");
             out.lock().flush().unwrap();
@@ -125,13 +134,14 @@ pub fn cmd_lock_replay(args: &HashMap<String, String>) -> i32 {
             match a {
                 "Open" => {
                     let want = st["ok"].as_bool().unwrap();
+                    let mode = st["mode"].as_str().unwrap_or("create").to_string();
                     let before = dir_fingerprint(&dir);
                     if !handles.is_empty() {
                         nontrivial = true;
                     }
                     let got: Result<Handle, String> = if is_child {
                         let mut ch = Command::new(&exe)
-                            .args(["lock-child", "--dir", dir.to_str().unwrap()])
+                            .args(["lock-child", "--dir", dir.to_str().unwrap(), "--mode", &mode])
                             .stdin(Stdio::piped())
                             .stdout(Stdio::piped())
                             .spawn()
@@ -145,7 +155,7 @@ pub fn cmd_lock_replay(args: &HashMap<String, String>) -> i32 {
                             Err(l)
                         }
                     } else {
-                        match catch(|| Db::open_or_create(&lock_options(&dir))) {
+                        match catch(|| open_mode(&dir, &mode)) {
                             Ok(Ok(db)) => Ok(Handle::Local(db)),
                             Ok(Err(parity_db::Error::Locked(_))) => Err("LOCKED".into()),
                             Ok(Err(e)) => Err(format!("ERR {e}")),
@@ -263,12 +273,14 @@ pub fn cmd_lock_race(args: &HashMap<String, String>) -> i32 {
         drop(Db::open_or_create(&lock_options(&dir)).unwrap());
         let barrier = std::sync::Arc::new(std::sync::Barrier::new(4));
         let mut hs = Vec::new();
-        for _ in 0..4 {
+        for t in 0..4usize {
             let d = dir.clone();
             let b = barrier.clone();
             hs.push(std::thread::spawn(move || {
                 b.wait();
-                let r = Db::open(&lock_options(&d));
+                // the racers use all three ways of opening (every third round: read-only only)
+                let mode = if r % 3 == 2 { "ro" } else { ["write", "ro", "create", "ro"][(t + r) % 4] };
+                let r = open_mode(&d, mode);
                 b.wait();
                 // all attempts are over before any handle is dropped
                 r.is_ok()
